@@ -517,6 +517,10 @@ type c12Report struct {
 	OutHist   map[string]int `json:"outcome_histogram"`
 	GenHist   map[string]int `json:"genesis_histogram"`
 	MultiOps  int            `json:"blocks_with_two_ops_by_one_delegator"`
+	Merged    int            `json:"undelegations_merged_into_a_pending_key_written_in_the_same_block"`
+	FirstSeen int            `json:"accruals_to_an_active_key_first_written_in_the_previous_block"`
+	Accr2     int            `json:"blocks_with_accrual_to_two_or_more_delegators"`
+	AccrReinv int            `json:"accruals_right_after_a_reinvestment_by_the_same_delegator"`
 	Alien     int            `json:"alien_keys"`
 	Files     []string       `json:"files"`
 	Samples   []string       `json:"samples"`
@@ -595,6 +599,11 @@ func c12Main(args []string) int {
 		var sb strings.Builder
 		perBlock := map[int]int{}
 		multi := false
+		undOK, reinvOK, newKey := map[int]int{}, map[int]bool{}, map[int]bool{}
+		hadKey := map[int]bool{}
+		for _, e := range c.Gen.Active {
+			hadKey[e.A] = true
+		}
 		for i, o := range c.Ops {
 			rep.KindHist[o.Kind]++
 			sb.WriteString(o.Kind + o.Amt + ";")
@@ -603,8 +612,34 @@ func c12Main(args []string) int {
 				if multi {
 					rep.MultiOps++
 				}
+				if len(o.Accr) >= 2 {
+					rep.Accr2++
+				}
+				for _, e := range o.Accr {
+					if reinvOK[e.A] {
+						rep.AccrReinv++
+					}
+					if newKey[e.A] {
+						rep.FirstSeen++
+					}
+				}
 				perBlock, multi = map[int]int{}, false
+				undOK, reinvOK, newKey = map[int]int{}, map[int]bool{}, map[int]bool{}
 				continue
+			}
+			if c.Res[i] {
+				switch o.Kind {
+				case "undelegate":
+					undOK[o.A]++
+					if undOK[o.A] >= 2 {
+						rep.Merged++
+					}
+				case "reinvest":
+					reinvOK[o.A] = true
+				}
+				if (o.Kind == "delegate" || o.Kind == "reinvest") && !hadKey[o.A] {
+					hadKey[o.A], newKey[o.A] = true, true
+				}
 			}
 			rep.Txs++
 			perBlock[o.A]++
